@@ -222,7 +222,7 @@ func main() {
 		wg.Add(1)
 		go func() {
 			defer wg.Done()
-			runDangling(run, filepath.Join(dir, "dangling"), run.N(300, 5000))
+			runDangling(run, filepath.Join(dir, "dangling"), run.N(480, 6000))
 		}()
 	}
 	if only != "dangling" {
